@@ -27,7 +27,14 @@ PH_COLS = ["change_scores", "page_hinkley_values", "page_hinkley_differences", "
 
 def scenarios(tier):
     k = 1 if tier == "quick" else 10
-    return [("cusum_est", 350 * k), ("cusum_known", 250 * k), ("ph", 500 * k), ("cusum_grid", 250 * k), ("ph_grid", 150 * k)]
+    # ph_long / cusum_long: one epoch of thousands of observations (and a CUSUM burn_in beyond 1000), then a change: whatever is
+    # capped, trimmed or re-synchronised after ~1000 updates only shows there
+    m = 3 if tier == "quick" else 10
+    return [("cusum_est", 350 * k), ("cusum_known", 250 * k), ("ph", 500 * k), ("cusum_grid", 250 * k), ("ph_grid", 150 * k),
+            ("ph_long", m), ("cusum_long", m)]
+
+
+HEAVY = ["cusum_long", "ph_long"]
 
 
 def _grid_stream(rng, n):
@@ -43,6 +50,25 @@ def _grid_stream(rng, n):
 
 def gen(rng, scenario, tier):
     n = rng.randint(60, 500)
+    if scenario == "ph_long":
+        n = rng.randint(1800, 2600)
+        mu, sd = rng.choice([5.0, 20.0]), rng.choice([0.5, 1.0])
+        n0 = n - rng.randint(250, 500)
+        sign = 1 if rng.random() < 0.5 else -1
+        xs = [round(rng.gauss(mu, sd) + (sign * 2.5 * sd * (t - n0) / (n - n0) if t >= n0 else 0.0), 4) for t in range(n)]
+        cfg = {"det": "ph", "burn_in": rng.choice([0, 30]), "delta": rng.choice([0.05, 0.2]), "threshold": rng.choice([2, 4]),
+               "direction": "positive" if sign > 0 else "negative"}
+        return {"cfg": cfg, "events": xs, "drift_positions": [n0]}
+    if scenario == "cusum_long":
+        b = rng.randint(1100, 1900)
+        n0 = rng.randint(max(b + 150, 2150), 2700)      # the change arrives after more than 2**11 observations, burn_in of them carried over
+        n = n0 + rng.randint(300, 500)
+        mu, sd = rng.choice([0.0, 50.0]), rng.choice([0.5, 2.0])
+        xs = [round(rng.gauss(mu, sd) + (1.2 * sd if t >= n0 else 0.0), 4) for t in range(n)]
+        # after the alarm the constants are re-estimated from the last burn_in (> 1000) observations; a second, opposite change follows
+        xs += [round(rng.gauss(mu - 1.5 * sd, sd), 4) for _ in range(rng.randint(60, 200))]
+        cfg = {"det": "cusum", "burn_in": b, "delta": 0.25, "threshold": rng.choice([8, 12]), "direction": None, "target": None, "sd_hat": None}
+        return {"cfg": cfg, "events": xs, "drift_positions": [n0]}
     if scenario == "cusum_grid":
         xs = _grid_stream(rng, rng.randint(40, 200))
         cfg = {"det": "cusum", "burn_in": rng.choice([2, 4, 8]), "delta": rng.choice([0.0, 0.25, 0.5]), "threshold": rng.choice([1, 2, 3, 5]),
